@@ -4,6 +4,7 @@ mod c24;
 mod c25;
 mod c26;
 mod c31;
+mod reqs;
 mod srv;
 mod util;
 
